@@ -21,6 +21,7 @@ import (
 	"go/ast"
 	"go/token"
 	"go/types"
+	"os"
 	"sort"
 	"strings"
 )
@@ -45,7 +46,18 @@ func funcFingerprint(pkg *types.Package, info *types.Info, fd *ast.FuncDecl) fun
 		return p.Path()
 	}
 	sig := obj.Type().(*types.Signature)
-	fp.Sig = types.TypeString(sig, q)
+	// parameter and result TYPES only: their names are free to change
+	tuple := func(t *types.Tuple) string {
+		var parts []string
+		for i := 0; i < t.Len(); i++ {
+			parts = append(parts, types.TypeString(t.At(i).Type(), q))
+		}
+		return "(" + strings.Join(parts, ", ") + ")"
+	}
+	fp.Sig = "func" + tuple(sig.Params()) + tuple(sig.Results())
+	if sig.Variadic() {
+		fp.Sig += "..."
+	}
 	if r := sig.Recv(); r != nil {
 		fp.Sig = "(" + types.TypeString(r.Type(), q) + ")" + fp.Sig
 	}
@@ -280,7 +292,18 @@ func undoRenames(pk *pkgView, dir string, or *knownFuncs) (int, []string) {
 					second = sc
 				}
 			}
-			if best == "" || bestScore < 0.34 || (second >= 0 && bestScore-second < 0.1) {
+			if os.Getenv("VERIF_DEBUG_NORM") != "" {
+				fmt.Fprintf(os.Stderr, "rename: missing %s: best %s %.2f second %.2f\n", k, best, bestScore, second)
+			}
+			// one missing function and one new function of this signature: a rename whatever the body looks like
+			sameSigMissing := 0
+			for _, k2 := range missing {
+				if prints[k2].Sig == prints[k].Sig {
+					sameSigMissing++
+				}
+			}
+			unique := second < 0 && sameSigMissing == 1
+			if best == "" || (!unique && (bestScore < 0.34 || (second >= 0 && bestScore-second < 0.1))) {
 				continue
 			}
 			taken[best] = true
